@@ -42,7 +42,8 @@ def classes():
 SUBS = collections.OrderedDict([
     ('A.Ma', ('A', 'Ma', 'all', 10, False)),
     ('A.M', ('A', 'M', 'even', 30, False)),
-    ('A.Mb', ('A', 'Mb', 'all', 30, False)),
+    ('A.Mb', ('A', 'Mb', 'even', 30, False)),   # most specific subscription with a filter that can reject
+                                                # while the listener's more general one (A.Ma) accepts
     ('B.Mb', ('B', 'Mb', 'all', 20, False)),
     ('B.Ma', ('B', 'Ma', 'all', 20, False)),
     ('B.Mc', ('B', 'Mc', 'all', 20, True)),     # handler is a bound method of a helper object
